@@ -644,7 +644,19 @@ def step (m : VM) : Except VRes VM :=
           -- `vm.stack` has MaxStackDepth = 1024 slots: the push that needs a 1025th panics (index out
           -- of range, recovered by `Run`/`Call` like any Go panic)
           if m'.stack.length > 1024 then raise m' { cls := "panic" } else .ok m'
-        | .error (.err cls) => raise m { cls := cls }
+        | .error (.err cls) =>
+          -- every arm of `eval` pops its operands before it can fail, so the error leaves the stack
+          -- WITHOUT them (seen in the dispatch trace: deferred calls of the failing activation start
+          -- at that height)
+          let pops : Nat :=
+            match (findCode m.codes fr.codeId).bind (fun c => insAt c fr.pc) with
+            | some i =>
+              (match i.kind with
+               | .fall p _ => p
+               | .condF _ => 1
+               | _ => 0)
+            | none => 0
+          raise { m with stack := m.stack.drop (min pops m.stack.length) } { cls := cls }
         | .error r => .error r
 
 def runVM : Nat → VM → VRes × VM
